@@ -159,7 +159,7 @@ def c02d(ck, prog):
     R = "C02-d USED-RESULT"
     f = prog.one(r"^ohkami::request::Request::read::\{closure#0\}$")
     # the first read: AsyncReadExt::read(stream, buf) -> future -> poll -> Ready(Ok(n))
-    rd = f.calls_to(r"AsyncReadExt::read$|io::AsyncReadExt::read$")
+    rd = f.calls_to(r"(AsyncReadExt|ReadExt)::read$")
     if not rd:
         raise AnchorLost("the stream.read(..) call of Request::read was not found")
     # find uses of the Ok payload: places `((X as Ready).0 as Ok).0`
